@@ -217,9 +217,11 @@ class Script:
                 if fused is None:
                     obj = None
                     return None
-                fn, fargs, fkwargs, self._pending_entry, self.cur_draw = fused
+                # the callee is NOT bound to a local of this frame: callable locals of calling frames are a lookup
+                # stage of the tracer, and a hidden function must stay unresolvable
+                self._pending_entry, self.cur_draw = fused[3], fused[4]
                 obj = None
-                return fn(*fargs, **fkwargs)
+                return fused[0](*fused[1], **fused[2])
             raise ScriptError("cannot do %r" % (op,))
         except Boom:
             if not a.get("catch", True) and caller:
